@@ -585,11 +585,15 @@ def apply_obligations(F, A, an, sites):
     return R, used
 
 
-def run(chk, F, A, entries, label, allow_recursion=(), tag="", partitions=True):
-    """Full PF pass for one configuration and entry set; records obligations / violations on chk."""
+def run(chk, F, A, entries, label, allow_recursion=(), tag="", partitions=True, only_fns=None):
+    """Full PF pass for one configuration and entry set; records obligations / violations on chk.
+    only_fns: restrict the *reported* sites, loops and recursion to these functions (the analysis context is
+    still the whole tree below the entries)."""
     an = ia.Analyzer(F)
     tree = F.reachable(entries)
     sites = enumerate_sites(F, tree)
+    if only_fns is not None:
+        sites = [s for s in sites if s.f.path in only_fns]
     discharge_with_ia(F, an, entries, sites, tree, partitions)
     capacity_budget(F, an, sites)
     accumulator_budget(F, an, sites)
@@ -613,6 +617,9 @@ def run(chk, F, A, entries, label, allow_recursion=(), tag="", partitions=True):
             chk.samples.append({"site": s.key, "status": s.status, "how": s.detail[:220]})
     # P3 termination
     rec, loops = loops_and_recursion(F, tree)
+    if only_fns is not None:
+        rec = [c for c in rec if any(p in only_fns for p in c)]
+        loops = [l for l in loops if l[0].path in only_fns]
     for comp in rec:
         allowed = all(any(core.strip_generics(p) == a for a in allow_recursion) for p in comp)
         okr = False
